@@ -658,3 +658,59 @@ Definition check_run (en : bool) (scripts : list script) (tr : list ev) : bool :
                    end) 0 scripts
      else true)
   end.
+
+(* ------------------------------------------------------------------------------------------ *)
+(* D. identity of the lock object across re-opens of the connection                            *)
+(* ------------------------------------------------------------------------------------------ *)
+(* The channel refers to ONE lock object at a time ([o_cur]: its identity).  A caller entering a lock
+   section evaluates `self.channel_lock` once ([OArrive]: it is bound to the object current at that
+   moment) and waits for / holds / releases THAT object, whatever the channel refers to later on.
+   [OOpen] is `channel.open()` — the connection is (re-)opened, by anybody, at any time: with [recreate]
+   it binds a fresh lock object, without it the object made by `__init__` stays.  A caller whose
+   operation has ended (result or failure) may come again ([OAgain]: the retry after a re-open). *)
+Inductive ost := OIdle | OWait (g : nat) | OHold (g : nat) | OEnded.
+Inductive oev := OArrive (c : nat) | OAcq (c : nat) | OIo (c : nat) | ORel (c : nat) | OAgain (c : nat) | OOpen.
+Record ocfg := mkO { o_cur : nat; o_sts : list ost }.
+
+Definition holds_obj (g : nat) (s : ost) : bool := match s with OHold h => Nat.eqb g h | _ => false end.
+Definition is_hold (s : ost) : bool := match s with OHold _ => true | _ => false end.
+Definition holders (cf : ocfg) : nat := length (filter is_hold (o_sts cf)).
+
+Definition ostep_fn (recreate : bool) (cf : ocfg) (e : oev) : option ocfg :=
+  match e with
+  | OArrive c =>
+    match nth_error (o_sts cf) c with
+    | Some OIdle => Some (mkO (o_cur cf) (upd c (OWait (o_cur cf)) (o_sts cf)))
+    | _ => None
+    end
+  | OAcq c =>
+    match nth_error (o_sts cf) c with
+    | Some (OWait g) => if existsb (holds_obj g) (o_sts cf) then None   (* that object is held: the caller waits *)
+                        else Some (mkO (o_cur cf) (upd c (OHold g) (o_sts cf)))
+    | _ => None
+    end
+  | OIo c => match nth_error (o_sts cf) c with Some (OHold _) => Some cf | _ => None end
+  | ORel c =>
+    match nth_error (o_sts cf) c with
+    | Some (OHold _) => Some (mkO (o_cur cf) (upd c OEnded (o_sts cf)))
+    | _ => None
+    end
+  | OAgain c =>
+    match nth_error (o_sts cf) c with
+    | Some OEnded => Some (mkO (o_cur cf) (upd c OIdle (o_sts cf)))
+    | _ => None
+    end
+  | OOpen => Some (mkO (if recreate then S (o_cur cf) else o_cur cf) (o_sts cf))
+  end.
+
+Fixpoint oreplay (recreate : bool) (cf : ocfg) (tr : list oev) : option ocfg :=
+  match tr with
+  | [] => Some cf
+  | e :: r => match ostep_fn recreate cf e with Some cf' => oreplay recreate cf' r | None => None end
+  end.
+
+Definition oinit (n : nat) : ocfg := mkO 0 (repeat OIdle n).
+
+(* mutual exclusion across re-opens, the full statement: whatever open() does to the lock attribute *)
+Definition reopen_exclusive_full : Prop :=
+  forall recreate n tr cf, oreplay recreate (oinit n) tr = Some cf -> holders cf <= 1.
